@@ -1,5 +1,6 @@
 import Mrpro.Lemmas.SrcL
 import Mrpro.Lemmas.SrcRotL
+import Mrpro.Lemmas.SrcCanonL
 import Mrpro.Model.Rotation
 import Mrpro.Lemmas.RotationL
 import Mrpro.Lemmas.EulerL
@@ -82,6 +83,23 @@ theorem src_matrix_round_trip {K : Type} [Field K] [LinearOrder K] [IsStrictOrde
 /-- the quaternion product in the source (`_compose_quaternions_single`) is the model's `Q.mul` -/
 theorem src_compose {K : Type} [CommRing K] (p q : M.Q K) : M.Src.rot_compose p.a p.b p.c p.w q.a q.b q.c q.w = M.Q.mul p q :=
   M.SrcL.rot_compose_eq p q
+
+/-! ### `_canonical_quaternion` (which of `q`, `−q` is stored / returned): the sign rule is translated from the source on every run
+(`M.Src.rot_needs_inversion`, with the index map read from `AXIS_ORDER`) -/
+/-- the rule in the source is the rule of the model, for every scalar type with `<` and `==` (also `Float`, where the driver runs it) -/
+theorem src_canonical_rule {K : Type} [LT K] [DecidableLT K] [BEq K] [OfNat K 0] [Neg K] (q : M.Q K) :
+    M.Src.rot_needs_inversion q.a q.b q.c q.w = M.needsInversion 2 1 0 q := M.SrcL.rot_needs_inversion_eq q
+/-- the canonical form is `q` or `−q`, has non-negative scalar part … -/
+theorem canonical_form {K : Type} [Field K] [LinearOrder K] [IsStrictOrderedRing K] (q : M.Q K) :
+    (M.canonicalG 2 1 0 q = q ∨ M.canonicalG 2 1 0 q = q.neg) ∧ 0 ≤ (M.canonicalG 2 1 0 q).w :=
+  ⟨M.SrcL.canonical_cases q, M.SrcL.canonical_w_nonneg q⟩
+/-- … and is the *same* quaternion for `q` and `−q` (every non-zero quaternion): the `q ~ −q` ambiguity is resolved consistently,
+so equal rotations get equal canonical quaternions -/
+theorem canonical_of_neg {K : Type} [Field K] [LinearOrder K] [IsStrictOrderedRing K] (q : M.Q K)
+    (hq : q.a ≠ 0 ∨ q.b ≠ 0 ∨ q.c ≠ 0 ∨ q.w ≠ 0) : M.canonicalG 2 1 0 q.neg = M.canonicalG 2 1 0 q := M.SrcL.canonical_neg q hq
+/-- the executable model is this function at `Float` -/
+theorem float_canonical_is_generic : M.F.canonical = fun ix iy iz q => M.canonicalG ix iy iz q := rfl
+example : M.canonicalG 2 1 0 (⟨1, -2, 0, 0⟩ : M.Q Rat) = ⟨-1, 2, 0, 0⟩ ∧ M.canonicalG 2 1 0 (⟨-1, 2, 0, 0⟩ : M.Q Rat) = ⟨-1, 2, 0, 0⟩ := by decide +kernel
 
 /-- the instance at the reals with `Real.sqrt` -/
 theorem matrixToQuat_toMat_real (q : M.Q ℝ) (hq : q.normSq = 1) :
